@@ -166,7 +166,11 @@ class StatsExt:
 
     def on_construct(self, runner, model):
         sim = runner.sim
-        model.producer = QueueProducer() if self.case.get("falsy_producer") else EventProducer()
+        if not (self.case.get("long_lived_producer") and getattr(model, "producer", None) is not None):
+            # (long_lived_producer: the producer belongs to the model object and
+            # survives re-initialisation; the statistics of earlier replications are
+            # still subscribed to it, the new ones must be subscribed as well)
+            model.producer = QueueProducer() if self.case.get("falsy_producer") else EventProducer()
         model.stats = []
         for i, sp in enumerate(self.spec):
             kind = sp["kind"]
